@@ -218,8 +218,7 @@ Lemma logged_replay_insert s hd r s1 : MirrorAuth.replay_insert s hd r = Ok s1 -
 Proof.
   unfold MirrorAuth.replay_insert.
   destruct (existsb _ (v_phs _)); [intros E; inversion E; subst; apply logged_refl|].
-  destruct (existsb _ (st_rounds s)); intros E; inversion E; subst; [|eapply logged_one; reflexivity].
-  apply quiet_logged; split; reflexivity.
+  destruct (existsb _ (st_rounds s)); intros E; inversion E; subst; eapply logged_one; reflexivity.
 Qed.
 
 Lemma logged_handle_replay s0 hd cp s' res : handle_replay s0 hd cp = Ok (s', res) -> logged s0 s'.
